@@ -229,11 +229,27 @@ fn verify_sublayouts(
     let mut steps_link_metadata = HashMap::new();
     #[cfg(all(in_toto_verif, not(in_toto_verif_nosites)))]
     let chain_link_dict = crate::verif_hooks::owned(chain_link_dict, "B");
-    for (step_name, key_link_dict) in chain_link_dict {
+    // Verifying a sub-layout runs its inspections in the working directory, so
+    // the order of the recursion is part of the result: steps in layout order,
+    // the functionaries of a step by key id - never in hash-map order.
+    let mut chain_links: Vec<_> = chain_link_dict.into_iter().collect();
+    let position = |name: &String| {
+        layout
+            .steps
+            .iter()
+            .position(|s| &s.name == name)
+            .unwrap_or(usize::MAX)
+    };
+    chain_links.sort_by(|a, b| {
+        position(&a.0).cmp(&position(&b.0)).then_with(|| a.0.cmp(&b.0))
+    });
+    for (step_name, key_link_dict) in chain_links {
         let mut link_per_step = HashMap::new();
         #[cfg(all(in_toto_verif, not(in_toto_verif_nosites)))]
         let key_link_dict = crate::verif_hooks::owned(key_link_dict, "B2");
-        for (keyid, link) in &key_link_dict {
+        let mut functionary_links: Vec<_> = key_link_dict.iter().collect();
+        functionary_links.sort_by(|a, b| a.0.cmp(b.0));
+        for (keyid, link) in functionary_links {
             let link_metadata = match &link.metadata {
                 MetadataWrapper::Layout(_) => {
                     // If it's a layout, go ahead.
